@@ -55,7 +55,8 @@ def describe(tier):
                  b['num'], list(KINDS), b['pos'], POS_KINDS, MARKUP_SYNTAXES, len(FIXED_WRAP), len(STYLE_ABBRS), STYLE_SYNTAXES),
         nontrivial='at least one callback invocation was recorded and checked.',
         bounds=b,
-        assumptions=['stylesheet field numbering, options containing newlines and callbacks that return newlines are left unspecified'],
+        assumptions=['text with fields on an element that has children (HTML formatter): the children take the place of the first '
+                     'field, the remaining fields are checked as one value', 'stylesheet field numbering, options containing newlines and callbacks that return newlines are left unspecified'],
         explanation='Callbacks record (returned string, offset, line, column) for every invocation; after the run each record is checked '
                     'against the final result string.',
     )
@@ -108,7 +109,7 @@ class Unspecified(Exception):
     pass
 
 
-def values_in_document_order(tree, out=None):
+def values_in_document_order(tree, out=None, syntax='html'):
     """list of values in output order; value = 'caret' (one implicit tabstop) or list of written field indices"""
     if out is None:
         out = []
@@ -118,15 +119,20 @@ def values_in_document_order(tree, out=None):
             if a is not None:
                 out.append(a)
         leaf = not ch
+        after = None
         if k['text'] is not None:
             if k['text'] != 'lit':
-                if ch:
-                    # children are written in place of the first field of the text (by design): left unspecified
-                    raise Unspecified()
-                out.append(k['text'])
+                if ch and syntax == 'html':
+                    # HTML formatter: the children are written in place of the first field of the text (by design); the
+                    # fields after it are still one value: relative numbering kept, no collision with other values
+                    after = k['text'][1:]
+                else:
+                    out.append(k['text'])
         elif leaf and not k['sc']:
             out.append('caret')
-        values_in_document_order(ch, out)
+        values_in_document_order(ch, out, syntax)
+        if after:
+            out.append(after)
     return out
 
 
@@ -138,7 +144,7 @@ def check_numbering(seq, labels, syntax, fmt=0):
         return abbr, ('exception:%s' % type(e).__name__, str(e)[:120])
     tree = M.unroll(M.denote(seq, labels))
     try:
-        vals = values_in_document_order(tree)
+        vals = values_in_document_order(tree, None, syntax)
     except Unspecified:
         return abbr, 'unspecified'
     obs = [r[5] for r in recs if r[0] == 'f']
